@@ -5,6 +5,9 @@
 mod oracle;
 use oracle::*;
 use pkgsrc::plist::{Plist, PlistEntry};
+use pkgsrc::summary::{Summary, SummaryStream};
+use std::io::Write;
+use std::str::FromStr;
 use pkgsrc::{Dewey, Pattern, PkgName};
 use std::ffi::OsString;
 use std::os::unix::ffi::{OsStrExt, OsStringExt};
@@ -581,6 +584,155 @@ fn search_c15(r: &mut Rng, iters: usize) -> bool {
     }
     true
 }
+fn gen_value(r: &mut Rng) -> String {
+    let parts = ["x", "1.0", "é", "a=b", "", "日本", " sp ", "-", "lib>=2", "\u{10348}", "%", "="];
+    let mut s = String::new();
+    for _ in 0..r.below(4) { s.push_str(r.pick(&parts)); }
+    s
+}
+fn gen_entry_text(r: &mut Rng, fault: u8) -> String {
+    // a complete entry in canonical order, optional extras, optionally one injected fault
+    let mut lines: Vec<String> = vec![];
+    for (name, kind) in SUM_VARS {
+        let req = SUM_REQUIRED.contains(name);
+        if !req && r.below(2) == 0 { continue; }
+        match kind {
+            0 => lines.push(format!("{}={}", name, gen_value(r))),
+            1 => lines.push(format!("{}={}", name, (r.next() as i64) >> r.below(60))),
+            _ => for _ in 0..(1 + r.below(3)) { lines.push(format!("{}={}", name, gen_value(r))); },
+        }
+    }
+    match fault {
+        1 => { let k = r.below(lines.len()); lines[k] = lines[k].replace('=', ":"); if lines[k].contains('=') { lines[k] = "NOEQ".into(); } }
+        2 => { let k = r.below(lines.len()); lines[k] = format!("X{}", lines[k]); }
+        3 => { lines.push("FILE_SIZE=12x".into()); }
+        4 => { let req = r.pick(SUM_REQUIRED); lines.retain(|l| !l.starts_with(&format!("{}=", req))); }
+        5 => { let k = r.below(lines.len()); let l = lines[k].clone(); lines.insert(r.below(lines.len()), l); }
+        6 => { let n = lines.len(); let a = r.below(n); let b = r.below(n); lines.swap(a, b); }
+        _ => {}
+    }
+    let mut t = lines.join("\n");
+    t.push('\n');
+    t
+}
+fn real_summary(t: &str) -> Result<String, String> {
+    match Summary::from_str(t) {
+        Ok(s) => Ok(format!("{}", s)),
+        Err(e) => Err(match e {
+            pkgsrc::summary::SummaryError::ParseLine(_) => "ParseLine".into(),
+            pkgsrc::summary::SummaryError::ParseVariable(_) => "ParseVariable".into(),
+            pkgsrc::summary::SummaryError::ParseInt(_) => "ParseInt".into(),
+            pkgsrc::summary::SummaryError::Incomplete(m) => format!("Incomplete({})", format!("{}", m).replace("missing required variable ", "")),
+            _ => "other".into(),
+        }),
+    }
+}
+fn oracle_summary(t: &str) -> Result<String, String> {
+    match summary_parse(t) {
+        Ok(e) => Ok(summary_render(&e)),
+        Err(SErr::Incomplete(v)) => Err(format!("Incomplete({})", v)),
+        Err(e) => Err(format!("{:?}", e)),
+    }
+}
+fn search_c08(r: &mut Rng, iters: usize) -> bool {
+    for _ in 0..iters {
+        let f = r.below(8) as u8;
+        let t = gen_entry_text(r, f);
+        let e = oracle_summary(&t);
+        let a = real_summary(&t);
+        if e != a {
+            witness("summary_parse", &[("text", t)], &format!("{:?}", e), &format!("{:?}", a));
+            return false;
+        }
+        if let Ok(s) = Summary::from_str(&t) {
+            if !s.is_completed() {
+                witness("summary_completed", &[("text", t)], "true", "false");
+                return false;
+            }
+        }
+    }
+    true
+}
+fn search_c07(r: &mut Rng, iters: usize) -> bool {
+    for _ in 0..iters {
+        // canonical text -> parse -> print reproduces it; print -> parse gives the same values
+        let t = gen_entry_text(r, 0);
+        let Ok(s) = Summary::from_str(&t) else { witness("summary_parse", &[("text", t)], "Ok", "Err"); return false };
+        let printed = format!("{}", s);
+        if printed != t {
+            witness("summary_roundtrip", &[("text", t)], "identical text", &printed);
+            return false;
+        }
+        // shuffled / duplicated input lines of the same final values print the same (history independence)
+        let t2 = gen_entry_text(r, 6);
+        if let (Ok(a), Ok(e)) = (Summary::from_str(&t2), summary_parse(&t2)) {
+            let printed = format!("{}", a);
+            if printed != summary_render(&e) {
+                witness("summary_print", &[("text", t2)], &summary_render(&e), &printed);
+                return false;
+            }
+            match Summary::from_str(&printed) {
+                Ok(b) if format!("{}", b) == printed => {}
+                _ => { witness("summary_reparse", &[("text", printed.clone())], "same", "different"); return false; }
+            }
+        }
+    }
+    true
+}
+fn stream_run(chunks: &[&[u8]]) -> Result<String, String> {
+    let mut st = SummaryStream::new();
+    for c in chunks {
+        match st.write(c) {
+            Ok(n) if n == c.len() => {}
+            Ok(n) => return Err(format!("short write {} of {}", n, c.len())),
+            Err(e) => return Err(format!("{:?} after {} entries", e.kind(), st.entries().len())),
+        }
+    }
+    Ok(format!("{}", st))
+}
+fn search_c09(r: &mut Rng, iters: usize) -> bool {
+    for it in 0..iters / 20 {
+        let n = 1 + r.below(3);
+        let bad_at = if it % 4 == 0 { Some(r.below(n)) } else { None };
+        let mut stream = String::new();
+        let mut good_before = 0;
+        for i in 0..n {
+            let f = if Some(i) == bad_at { 1 + r.below(4) as u8 } else { 0 };
+            if bad_at.is_none() || i < bad_at.unwrap() { good_before += 1; }
+            stream.push_str(&gen_entry_text(r, f));
+            stream.push('\n');
+        }
+        let bytes = stream.as_bytes();
+        let whole = stream_run(&[bytes]);
+        if bad_at.is_none() {
+            if whole.as_deref() != Ok(stream.as_str()) {
+                witness("stream_print", &[("hexstream", hex(bytes)), ("cuts", "".into())], "reproduces the stream", &format!("{:?}", whole));
+                return false;
+            }
+        }
+        // every single cut; a few double cuts; byte at a time
+        let mut partitions: Vec<Vec<usize>> = (1..bytes.len()).map(|c| vec![c]).collect();
+        for _ in 0..20 { let a = 1 + r.below(bytes.len() - 1); let b = 1 + r.below(bytes.len() - 1); partitions.push(vec![a.min(b), a.max(b)]); }
+        partitions.push((1..bytes.len()).collect());
+        for cuts in partitions {
+            let mut chunks: Vec<&[u8]> = vec![];
+            let mut prev = 0;
+            for &c in &cuts { if c > prev { chunks.push(&bytes[prev..c]); prev = c; } }
+            chunks.push(&bytes[prev..]);
+            let got = stream_run(&chunks);
+            let ok = match (&whole, &got) {
+                (Ok(a), Ok(b)) => a == b,
+                (Err(_), Err(g)) => g.starts_with("InvalidData") && g.ends_with(&format!("after {} entries", good_before)),
+                _ => false,
+            };
+            if !ok {
+                witness("stream_chunks", &[("hexstream", hex(bytes)), ("cuts", format!("{:?}", cuts))], &format!("{:?}", whole), &format!("{:?}", got));
+                return false;
+            }
+        }
+    }
+    true
+}
 fn unhexb(s: &str) -> Vec<u8> {
     (0..s.len() / 2).map(|i| u8::from_str_radix(&s[2 * i..2 * i + 2], 16).unwrap()).collect()
 }
@@ -614,6 +766,17 @@ fn run_witness(args: &[String]) -> i32 {
             format!("{}|{}", pn.pkgbase(), pn.pkgversion())
         }
         "pkgrevision" => format!("{:?}", PkgName::new(&g("name")).pkgrevision()),
+        "summary_parse" => format!("{:?}", real_summary(&g("text"))),
+        "summary_roundtrip" | "summary_print" => match Summary::from_str(&g("text")) { Ok(s) => format!("{}", s), Err(_) => "parse-error".into() },
+        "stream_chunks" | "stream_print" => {
+            let bytes = unhexb(&g("hexstream"));
+            let cuts: Vec<usize> = g("cuts").trim_matches(|c| c == '[' || c == ']').split(',').filter_map(|x| x.trim().parse().ok()).collect();
+            let mut chunks: Vec<&[u8]> = vec![];
+            let mut prev = 0;
+            for &c in &cuts { if c > prev && c <= bytes.len() { chunks.push(&bytes[prev..c]); prev = c; } }
+            chunks.push(&bytes[prev..]);
+            format!("{:?}", stream_run(&chunks))
+        }
         "plist_entry" => format!("{:?}", PlistEntry::from_bytes(&unhexb(&g("hexline"))).ok()),
         "plist" => format!("{:?}", Plist::from_bytes(&unhexb(&g("hextext"))).ok().map(|p| format!("{:?}", p))),
         "plist_views" => match Plist::from_bytes(&unhexb(&g("hextext"))) {
@@ -674,6 +837,9 @@ fn main() {
                 "C06" => search_c06(&mut r, la, iters),
                 "C18" => search_c18(&mut r, la, iters),
                 "C14" => search_c14(&mut r, iters),
+                "C07" => search_c07(&mut r, iters),
+                "C08" => search_c08(&mut r, iters),
+                "C09" => search_c09(&mut r, iters),
                 "C15" => search_c15(&mut r, iters),
                 _ => {
                     println!("no searcher for {}", pid);
